@@ -143,7 +143,7 @@ class Ctx:
         if p.returncode != 0:
             raise MachineryError("driver %s failed rc=%d\n%s\n%s" % (driver, p.returncode, p.stdout[-3000:], p.stderr[-6000:]))
         self.extra.setdefault("driver_wall_s", {})[name] = round(time.time() - t, 2)
-        shards = sorted(glob.glob(prefix + ".*.ndjson"))
+        shards = sorted(glob.glob(prefix + "*.ndjson"))
         shards = [s for s in shards if os.path.getsize(s) > 0]
         return shards
 
@@ -199,7 +199,7 @@ class Ctx:
         if self.only is not None:
             return
         missing = [n for n in names if self.clause_counts.get(n, 0) == 0]
-        if missing:
+        if missing and not self.failures:       # reported violations take precedence over the vacuity guard
             raise MachineryError("vacuous run: clauses never evaluated: %s" % missing)
 
     # -------------------------------------------------------------- verdict
